@@ -184,7 +184,7 @@ Definition ht_insert_entry (m : nat) (h : ht) (n : name) : ht :=
     let l0 := match get (vnames h) v with Some l => l | None => [] end in
     mkht real' (set (virt h) v (Nat.max md0 (length n))) (set (vnames h) v (nadd n l0)).
 
-Definition maxlen (l : list name) : nat := fold_left (fun a x => Nat.max a (length x)) l O.
+Definition maxlen (l : list name) : nat := list_max (map (@length N) l).
 
 (* pruneTables(entry) for the entry stored under n *)
 Definition ht_prune (m : nat) (h : ht) (n : name) : ht :=
